@@ -97,8 +97,48 @@ def _geometry(rng):
     return ps, origin
 
 
+_CANCEL = [[1.0, -1.0], [0.5, -0.5], [2.0, -2.0], [1.5, -1.5], [0.5, 0.25, -0.75], [1.0, 1.0, -2.0], [0.25, 0.25, -0.5],
+           [2.0, -1.0, -1.0], [-0.25, -0.75, 1.0], [1.0, -0.5, -0.25, -0.25]]
+_DYADIC = [1.0, -1.0, 0.5, -0.5, 0.25, -0.75, 2.0, -2.0, 1.5, -0.25]
+
+
+def _cancelling(rng, n):
+    """a length-n vector whose NON-ZERO entries sum to exactly zero (small dyadic values), n >= 2"""
+    pat = rng.choice([q for q in _CANCEL if len(q) <= n])
+    v = np.zeros(n)
+    for pos, x in zip(rng.sample(range(n), len(pat)), pat):
+        v[pos] = x
+    return v
+
+
+def _structured(rng, shape):
+    """small dyadic values with the structures a sparsity / emptiness shortcut can get wrong: rows and columns whose
+    non-zero entries cancel exactly, all-zero rows / columns, single-entry rows, all-negative rows"""
+    r, c = shape
+    m = np.array([[rng.choice(_DYADIC + [0.0, 0.0, 0.0]) for _ in range(c)] for _ in range(r)], dtype=float).reshape(r, c)
+    if rng.random() < 0.3:
+        m[rng.randrange(r), :] = 0.0
+    if rng.random() < 0.3:
+        m[:, rng.randrange(c)] = 0.0
+    if rng.random() < 0.3:
+        i = rng.randrange(r)
+        m[i, :] = 0.0
+        m[i, rng.randrange(c)] = rng.choice(_DYADIC)
+    if rng.random() < 0.3:
+        m[rng.randrange(r), :] = [-abs(rng.choice(_DYADIC)) for _ in range(c)]
+    if r >= 2 and rng.random() < 0.6:
+        m[:, rng.randrange(c)] = _cancelling(rng, r)
+    if c >= 2:                                    # last, so that at least one cancelling row survives
+        for i in rng.sample(range(r), rng.randint(1, max(1, r // 2))):
+            m[i, :] = _cancelling(rng, c)
+    return m
+
+
 def _signed(rng, shape):
-    """real matrix of any sign with zeros; moderate magnitudes"""
+    """real matrix of any sign with zeros; moderate magnitudes; 40% structured (exactly cancelling rows / columns, empty
+    rows / columns, single-entry and all-negative rows -- what an emptiness test on a row SUM gets wrong)"""
+    if rng.random() < 0.4:
+        return _structured(rng, shape)
     return gens.reals(rng, shape, -5.0, 5.0, special=False) * (np.array(
         [[rng.random() > 0.15 for _ in range(shape[1])] for _ in range(shape[0])], dtype=float))
 
@@ -119,7 +159,7 @@ def _gen_util(rng, tier):
         if rng.random() < 0.2:
             grid[rng.randrange(p)] = 0.0
         uv = _baselines(rng)
-        n = rng.randint(1, 4)
+        n = rng.choice([1, 2, 2, 3, 3, 4])
         yield {"grid_radians": grid, "uv": uv, "image": gens.reals(rng, (p,), -5.0, 5.0, special=False),
                "matrix": _signed(rng, (p, n)),
                "vis": gens.reals(rng, (uv.shape[0], 2), -5.0, 5.0, special=False)}
@@ -130,7 +170,7 @@ def _gen_class(rng, tier):
         ps, origin = _geometry(rng)
         uv = _baselines(rng)
         p = int((~m).sum())
-        n = rng.randint(1, 3)
+        n = rng.choice([1, 2, 2, 3, 3])
         yield {"mask": m, "pixel_scales": ps, "origin": origin, "uv": uv,
                "image": gens.reals(rng, m.shape, -5.0, 5.0, special=False),
                "matrix": _signed(rng, (p, n)),
